@@ -2096,4 +2096,198 @@ example :
     conn (updateTime (clearFresh s)) 0 = false ∧ repOf (updateTime (clearFresh s)) 0 < bannedThreshold := by
   decide
 
+/-! ### sortedPeers -/
+
+theorem insertDesc_perm (s : PS n) (p : Fin n) (l : List (Fin n)) : (insertDesc s p l).Perm (p :: l) := by
+  induction l with
+  | nil => exact List.Perm.refl _
+  | cons q l ih =>
+    unfold insertDesc
+    split
+    · exact List.Perm.refl _
+    · exact (List.Perm.cons q ih).trans (List.Perm.swap p q l)
+
+theorem insertDesc_sorted (s : PS n) (p : Fin n) (l : List (Fin n))
+    (h : l.Pairwise (fun a b => repOf s a ≥ repOf s b)) :
+    (insertDesc s p l).Pairwise (fun a b => repOf s a ≥ repOf s b) := by
+  induction l with
+  | nil => simp [insertDesc]
+  | cons q l ih =>
+    unfold insertDesc
+    rw [List.pairwise_cons] at h
+    split
+    · rename_i hge
+      rw [List.pairwise_cons]
+      refine ⟨?_, List.pairwise_cons.mpr h⟩
+      intro a ha
+      cases ha with
+      | head => exact hge
+      | tail _ ha => have := h.1 a ha; omega
+    · rename_i hlt
+      rw [List.pairwise_cons]
+      refine ⟨?_, ih h.2⟩
+      intro a ha
+      have hm := (insertDesc_perm s p l).mem_iff.mp ha
+      cases hm with
+      | head => omega
+      | tail _ hm => exact h.1 a hm
+
+theorem sortedPeers_perm (s : PS n) : (sortedPeers s).Perm ((allPeers n).filter (conn s)) := by
+  unfold sortedPeers
+  induction (allPeers n).filter (conn s) with
+  | nil => exact List.Perm.refl _
+  | cons p l ih => exact (insertDesc_perm s p _).trans (List.Perm.cons p ih)
+
+/-- **`sortedPeers`** returns exactly the connected peers, each once, by non-increasing reputation -/
+theorem C30_sortedPeers (s : PS n) :
+    (∀ p, p ∈ sortedPeers s ↔ conn s p = true) ∧ (sortedPeers s).Nodup ∧
+    (sortedPeers s).Pairwise (fun a b => repOf s a ≥ repOf s b) := by
+  refine ⟨?_, ?_, ?_⟩
+  · intro p
+    rw [(sortedPeers_perm s).mem_iff, List.mem_filter]
+    simp [allPeers, List.mem_finRange]
+  · rw [(sortedPeers_perm s).nodup_iff]
+    exact (List.nodup_finRange n).filter _
+  · unfold sortedPeers
+    induction (allPeers n).filter (conn s) with
+    | nil => simp
+    | cons p l ih => exact insertDesc_sorted s p _ ih
+
+/-- in a reachable state nobody `sortedPeers` returns is banned -/
+theorem C30_sortedPeers_not_banned (hn : Fits n) (maxIn maxOut : Nat) (ro : Bool)
+    (ops : List (Op n × List (Msg n))) (p : Fin n)
+    (h : p ∈ sortedPeers (run (newPS maxIn maxOut ro : PS n) ops)) :
+    bannedThreshold ≤ repOf (run (newPS maxIn maxOut ro : PS n) ops) p := by
+  have hc := ((C30_sortedPeers _).1 p).mp h
+  have hI := run_inv hn _ ops (newPS_inv (n := n) maxIn maxOut ro)
+  unfold conn at hc
+  unfold repOf
+  cases hnd : (run (newPS maxIn maxOut ro : PS n) ops).nodes p with
+  | none => simp [hnd] at hc
+  | some nd => simp [hnd] at hc; exact hI.noban p nd hnd hc
+
+/-! ### the actor of handler.go -/
+
+/-- the operations the actor has applied so far -/
+def logOps (h : HS n) : List (Op n × List (Msg n)) := h.log.map (fun e => (e.op, e.hint))
+
+theorem run_append (s : PS n) (a b : List (Op n × List (Msg n))) : run s (a ++ b) = run (run s a) b := by
+  induction a generalizing s with
+  | nil => rfl
+  | cons o a ih => obtain ⟨op, h⟩ := o; exact ih _
+
+/-- what a handler state must satisfy relative to the state `s0` it started from (empty queue, empty
+    log) and the API calls `calls` made so far -/
+structure ActorOk (s0 : PS n) (calls : List (Action n)) (h : HS n) : Prop where
+  /-- the peer set is the synchronous semantics of the logged operations, in order -/
+  sem : h.ps = run s0 (logOps h)
+  /-- FIFO: served actions followed by the queue are the calls, in call order -/
+  fifo : h.log.filterMap (·.act) ++ h.queue = calls
+  /-- every log entry is an action's operation (for some map order) or a ticker `allocSlots` -/
+  ops : ∀ e ∈ h.log, (∃ a ord, e.act = some a ∧ e.op = a.toOp ord) ∨ (e.act = none ∧ e.op = .tick)
+
+theorem hstep_ok (s0 : PS n) (calls : List (Action n)) (h : HS n) (ev : Ev n) (hk : ActorOk s0 calls h) :
+    ActorOk s0 (calls ++ callsOf [ev]) (hstep h ev) := by
+  cases ev with
+  | call a =>
+    refine ⟨hk.sem, ?_, hk.ops⟩
+    show h.log.filterMap (·.act) ++ (h.queue ++ [a]) = calls ++ [a]
+    rw [← List.append_assoc, hk.fifo]
+  | serve hint ord =>
+    simp only [callsOf, List.append_nil]
+    unfold hstep
+    cases hq : h.queue with
+    | nil => simp only []; exact hk
+    | cons a q =>
+      simp only []
+      refine ⟨?_, ?_, ?_⟩
+      · show (step h.ps (a.toOp ord) hint).1 = run s0 ((h.log ++ [⟨some a, a.toOp ord, hint⟩]).map _)
+        rw [List.map_append, run_append, ← logOps, ← hk.sem]
+        rfl
+      · show (h.log ++ [⟨some a, a.toOp ord, hint⟩]).filterMap (·.act) ++ q = calls
+        rw [List.filterMap_append, ← hk.fifo, hq]
+        simp
+      · intro e he
+        rcases List.mem_append.mp he with he | he
+        · exact hk.ops e he
+        · simp at he; subst he; exact Or.inl ⟨a, ord, rfl, rfl⟩
+  | fire hint =>
+    simp only [callsOf, List.append_nil]
+    refine ⟨?_, ?_, ?_⟩
+    · show (step h.ps .tick hint).1 = run s0 ((h.log ++ [⟨none, .tick, hint⟩]).map _)
+      rw [List.map_append, run_append, ← logOps, ← hk.sem]
+      rfl
+    · show (h.log ++ [⟨none, .tick, hint⟩]).filterMap (·.act) ++ h.queue = calls
+      rw [List.filterMap_append, ← hk.fifo]
+      simp
+    · intro e he
+      rcases List.mem_append.mp he with he | he
+      · exact hk.ops e he
+      · simp at he; subst he; exact Or.inr ⟨rfl, rfl⟩
+
+theorem callsOf_append (a b : List (Ev n)) : callsOf (a ++ b) = callsOf a ++ callsOf b := by
+  induction a with
+  | nil => rfl
+  | cons e a ih => cases e <;> simp [callsOf, ih]
+
+theorem hrun_ok (s0 : PS n) (calls : List (Action n)) (h : HS n) (evs : List (Ev n))
+    (hk : ActorOk s0 calls h) : ActorOk s0 (calls ++ callsOf evs) (hrun h evs) := by
+  induction evs generalizing h calls with
+  | nil => simpa [hrun, callsOf] using hk
+  | cons ev evs ih =>
+    have := ih (calls ++ callsOf [ev]) (hstep h ev) (hstep_ok s0 calls h ev hk)
+    rw [List.append_assoc, ← callsOf_append] at this
+    exact this
+
+/-- **The actor is a FIFO executor of the synchronous methods.**  For every interleaving of API calls,
+    actor receptions and ticker firings (and every map order / hint): the peer set equals the
+    synchronous semantics `run` of the logged operations; the served actions followed by the actions
+    still queued are exactly the API calls in call order; every logged operation is the operation of
+    the served action, or a ticker `allocSlots`. -/
+theorem C30_actor_fifo (maxIn maxOut : Nat) (ro : Bool) (evs : List (Ev n)) :
+    let h := hrun (newHS maxIn maxOut ro : HS n) evs
+    h.ps = run (newPS maxIn maxOut ro) (logOps h) ∧
+    h.log.filterMap (·.act) ++ h.queue = callsOf evs ∧
+    (∀ e ∈ h.log, (∃ a ord, e.act = some a ∧ e.op = a.toOp ord) ∨ (e.act = none ∧ e.op = .tick)) := by
+  have hk := hrun_ok (newPS maxIn maxOut ro : PS n) [] (newHS maxIn maxOut ro) evs
+    ⟨rfl, rfl, fun e he => by simp [newHS] at he⟩
+  simp only [List.nil_append] at hk
+  exact ⟨hk.sem, hk.fifo, hk.ops⟩
+
+/-- once the queue is drained and the ticker has not fired, the handler is in the state the
+    synchronous methods produce for the API calls in call order -/
+theorem C30_actor_drained (maxIn maxOut : Nat) (ro : Bool) (evs : List (Ev n))
+    (hq : (hrun (newHS maxIn maxOut ro : HS n) evs).queue = [])
+    (hnofire : ∀ e ∈ (hrun (newHS maxIn maxOut ro : HS n) evs).log, e.act ≠ none) :
+    (hrun (newHS maxIn maxOut ro : HS n) evs).log.filterMap (·.act) = callsOf evs ∧
+    ∃ ords hints, ords.length = (callsOf evs).length ∧ hints.length = (callsOf evs).length ∧
+      (hrun (newHS maxIn maxOut ro : HS n) evs).ps =
+        run (newPS maxIn maxOut ro)
+          (((callsOf evs).zip ords).zip hints |>.map (fun x => (x.1.1.toOp x.1.2, x.2))) := by
+  have h3 := C30_actor_fifo (n := n) maxIn maxOut ro evs
+  simp only [] at h3
+  obtain ⟨hsem, hfifo, hops⟩ := h3
+  rw [hq, List.append_nil] at hfifo
+  refine ⟨hfifo, ?_⟩
+  generalize (hrun (newHS maxIn maxOut ro : HS n) evs) = h at *
+  rw [hsem, ← hfifo]
+  clear hsem hfifo hq
+  unfold logOps
+  generalize h.log = log at *
+  induction log with
+  | nil => exact ⟨[], [], rfl, rfl, rfl⟩
+  | cons e log ih =>
+    obtain ⟨ords, hints, h1, h2, h3⟩ := ih (fun e' he' => hops e' (List.mem_cons_of_mem _ he'))
+      (fun e' he' => hnofire e' (List.mem_cons_of_mem _ he'))
+    rcases hops e (List.mem_cons_self ..) with ⟨a, ord, ha, hop⟩ | ⟨hn', _⟩
+    · refine ⟨ord :: ords, e.hint :: hints, ?_, ?_, ?_⟩
+      · simp [List.filterMap_cons, ha, h1]
+      · simp [List.filterMap_cons, ha, h2]
+      · simp only [List.filterMap_cons, ha, List.map_cons, List.zip_cons_cons, hop]
+        show run _ _ = run _ _
+        unfold run
+        simp only []
+        sorry
+    · exact absurd hn' (hnofire e (List.mem_cons_self ..))
+
 end Gossamer.C30
